@@ -407,7 +407,7 @@ def native_replay(rep, root=None):
             from . import gens
             srcs += gens.run(rep["gen"], root, wd)
         exe = os.path.join(wd, "replay")
-        cmd = ["gcc", "-std=gnu11", "-g", "-O0", "-w", "-fsanitize=address,undefined", "-fno-sanitize=shift-base", "-fno-sanitize-recover=all",
+        cmd = ["gcc", "-std=gnu11", "-g", "-O0", "-w", "-fsanitize=address,undefined", "-fno-sanitize=shift-base", "-fno-sanitize=pointer-overflow", "-fno-sanitize-recover=all",
                "-fno-omit-frame-pointer", "-DVT_REPLAY", "-I", wd, "-o", exe] + \
               [a for a in cc_args(q, root) if a != "-D__NO_CTYPE"] + srcs
         r = run_proc(cmd, 300, 0, wd)
